@@ -1,5 +1,6 @@
 """C15 - fn.asyncio() under an event loop matches the asynq result."""
 import asyncio
+import itertools
 import random
 
 from .. import gen, lang, ref, tl
@@ -23,7 +24,7 @@ RULE += (
     "program in ten is a 'recatch' program (several children raise the same cached object, one body catches it "
     "again and again and keeps awaiting)."
 )
-ASSUMPTIONS = ["the quantifier is restricted to what resolve_awaitables claims to support (no batch items, ErrorFuture, lazy Future, result(), contexts)"]
+ASSUMPTIONS = ["the quantifier is restricted to what resolve_awaitables claims to support (no batch items, ErrorFuture, lazy Future, result(), scoped values); with-blocks of AsyncContext subclasses are included, compared by outcome"]
 UNIT_TIMEOUT = {"quick": 240, "thorough": 2400}
 
 PROFILE = gen.profile(
@@ -48,6 +49,13 @@ PROFILE = gen.profile(
     max_instances=120,
 )
 
+# with-blocks of an AsyncContext subclass: entered and left by the body itself under .asyncio() too (the library's
+# asyncio branch of __enter__ / __exit__); only the OUTCOME is compared there - when the contexts are paused and
+# resumed is a statement about the scheduler (C06), and scoped values are not task-local on an event loop
+PROFILE_CTX = dict(PROFILE)
+PROFILE_CTX["w_stmt"] = dict(PROFILE["w_stmt"], with_=1.6, raise_=0.8)
+PROFILE_CTX["ctxs"] = ["actx"]
+
 
 def plan(tier, seed, build, scale):
     n = int((1400 if tier == "quick" else 80000) * scale)
@@ -57,6 +65,7 @@ def plan(tier, seed, build, scale):
     while a < n:
         units.append({"cases": [a, min(n, a + per)]})
         a += per
+    units.append({"mode": "dedup", "cases": [0, 1]})
     return units
 
 
@@ -66,6 +75,110 @@ def fix_ret(prog):
         for st in lang.iter_stmts(node["body"]):
             if st[0] == "ret":
                 st[1] = "return"
+
+
+def run_dedup(res, inc, progress):
+    """@deduplicate() functions under .asyncio(): the same value as the plain call, whatever the deduplication table
+    holds at that moment (a task of the same key built earlier under the scheduler and never computed, one that
+    is computed, none), for one or several requests of the same key in one yield, asked directly or from a child."""
+    import asynq
+    from asynq import asynq as A, is_asyncio_mode
+    from asynq.tools import DeduplicateDecorator, deduplicate
+
+    class Boom(Exception):
+        pass
+
+    n = 0
+    for table, shape, fail, keyed, method in itertools.product(("empty", "stale-uncomputed", "computed-earlier", "stale-other-key"), ("single", "twice-in-one-yield", "from-a-child", "asyncio-entry"), (False, True), (False, True), (False, True)):
+        progress(n)
+        n += 1
+        asynq.scheduler.reset()
+        DeduplicateDecorator.tasks.clear()
+        runs = []
+        dd_deco = deduplicate(keygetter=(lambda args, kwargs: args[-1] % 10)) if keyed else deduplicate()
+
+        if method:
+            class K(object):
+                @dd_deco
+                @A()
+                def m(self, k):
+                    runs.append(k)
+                    v = yield inner.asynq(k)
+                    if fail:
+                        raise Boom(k)
+                    return ("dd", v)
+
+            dd = K().m
+        else:
+            @dd_deco
+            @A()
+            def dd(k):
+                runs.append(k)
+                v = yield inner.asynq(k)
+                if fail:
+                    raise Boom(k)
+                return ("dd", v)
+
+        @A()
+        def inner(k):
+            return k * 2
+
+        @A()
+        def child(k):
+            return (yield dd.asynq(k))
+
+        @A()
+        def root(k):
+            try:
+                if shape == "single":
+                    return (yield dd.asynq(k))
+                if shape == "twice-in-one-yield":
+                    return (yield (dd.asynq(k), [dd.asynq(k)]))
+                return (yield child.asynq(k), dd.asynq(k))
+            except Boom as e:
+                return ("caught", e.args)
+
+        def outcome(thunk):
+            try:
+                return ("val", thunk())
+            except BaseException as e:
+                return ("exc", type(e).__name__, str(e)[:120])
+
+        want = outcome(lambda: dd(7)) if shape == "asyncio-entry" else outcome(lambda: root(7))
+        DeduplicateDecorator.tasks.clear()
+        stale = None
+        if table == "stale-uncomputed":
+            stale = dd.asynq(7)  # built under the scheduler, registered, never computed
+        elif table == "computed-earlier":
+            outcome(lambda: dd(7))
+        elif table == "stale-other-key":
+            stale = dd.asynq(8)
+        del runs[:]
+        before = is_asyncio_mode()
+        got = outcome(lambda: asyncio.run(dd.asyncio(7) if shape == "asyncio-entry" else root.asyncio(7)))
+        after = is_asyncio_mode()
+        res["evaluations"] += 1
+        inc("deduplicated_functions_awaited_under_asyncio")
+        if stale is not None:
+            inc("asyncio_runs_with_an_uncomputed_task_registered_for_the_key")
+        problem = None
+        if got != want:
+            problem = {"asyncio": got, "plain_call": want}
+        elif before or after:
+            problem = {"asyncio_mode_before": before, "after": after}
+        if problem is not None and len(res["violations"]) < 4:
+            res["violations"].append(
+                {
+                    "oracle": "asyncio-outcome-differs",
+                    "mechanism": "asyncio-outcome-differs/deduplicate",
+                    "detail": dict(problem, deduplication_table=table, shape=shape, body_fails=fail, custom_keygetter=keyed, method=method),
+                    "case": {"mode": "dedup", "cases": [0, 1]},
+                }
+            )
+        res["nontrivial"].append(hash(("dd", table, shape, fail, keyed, method)) & 0xFFFFFFFFFFFF)
+    DeduplicateDecorator.tasks.clear()
+    asynq.scheduler.reset()
+    return res
 
 
 def run_unit(unit, progress):
@@ -79,6 +192,8 @@ def run_unit(unit, progress):
     def inc(k, n=1):
         c[k] = c.get(k, 0) + n
 
+    if unit.get("mode") == "dedup":
+        return run_dedup(res, inc, progress)
     a, b = unit["cases"]
     for i in range(a, b):
         progress(i)
@@ -87,6 +202,10 @@ def run_unit(unit, progress):
             # one cached error object caught again and again by a body that keeps awaiting
             prog = gen.recatch_program(random.Random(cs))
             inc("programs_recatching_one_cached_error_object")
+        elif i % 5 == 2:
+            prog = gen.generate(cs, PROFILE_CTX)
+            if any(st[0] == "with" for node in prog["nodes"] for st in lang.iter_stmts(node["body"])):
+                inc("programs_with_context_blocks")
         else:
             prog = gen.generate(cs, PROFILE)
         fix_ret(prog)
@@ -212,7 +331,7 @@ def run_unit(unit, progress):
 
 def reach(c, tier):
     out = []
-    for k in ("exception_deliveries_under_asyncio", "programs_yielding_again_after_a_catch", "programs_with_dict_yields", "sync_call_probes", "observer_samples", "styles_explicit_asyncio_fn", "styles_method_like", "styles_proxy", "programs_ending_in_exception", "programs_recatching_one_cached_error_object", "raises_of_a_cached_error_object"):
+    for k in ("deduplicated_functions_awaited_under_asyncio", "exception_deliveries_under_asyncio", "programs_yielding_again_after_a_catch", "programs_with_dict_yields", "sync_call_probes", "observer_samples", "styles_explicit_asyncio_fn", "styles_method_like", "styles_proxy", "programs_ending_in_exception", "programs_recatching_one_cached_error_object", "raises_of_a_cached_error_object"):
         if not c.get(k):
             out.append("%s is zero" % k)
     return out
